@@ -2784,3 +2784,8 @@ for _p, _patch, _what in (
     VARIANTS.append(dict(prop=_p, id=f"r13/{_patch}", kind="M", rule="", expect_code=2, patch=_os.path.join(_HP, f"{_patch}.diff"), note=_what))
 VARIANTS.append(dict(prop="C13", id="r13/probe-unit-eq-false", kind="M", rule="R-C13-1", patch=_os.path.join(_HP, "probe-unit-eq-false.diff"),
                      note="@dataclass(eq=False): units compare and hash by identity"))
+VARIANTS.append(dict(prop="C06", id="r13/broken-timing-steers-sampling", kind="M", rule="R-C06-6", patch=_os.path.join(_HP, "broken-timing-steers-sampling.diff"),
+                     note="the clock decides whether a second batch of samples is drawn"))
+for _p in _ALL:
+    VARIANTS.append(dict(prop=_p, id="r13/benign-timing-logged", kind="B", rule="", patch=_os.path.join(_HP, "benign-timing-logged.diff"),
+                         note="a duration measured with time.perf_counter() and written to the log only"))
